@@ -192,3 +192,27 @@ def relations():
         ("1 d = 24 h = 1440 min", f("DAY") == 24 * f("HOUR") == 1440 * f("MINUTE")),
         ("1 yr = 365.25 d", f("YEAR") == F("365.25") * f("DAY")),
     ]
+
+
+def sig_digits_round_ok(observed, exact, min_digits):
+    """observed is a correct rounding of exact at the precision observed is given with"""
+    observed, exact = F(observed), F(exact)
+    if observed == exact:
+        return True
+    if observed <= 0:
+        return False
+    # significant digits of observed: shortest decimal that reproduces it
+    import decimal
+    decimal.getcontext().prec = 60
+    d = decimal.Decimal(observed.numerator) / decimal.Decimal(observed.denominator)
+    if F(str(d)) != observed:
+        return False          # not a terminating decimal with < 60 digits
+    t = d.normalize().as_tuple()
+    nd = len(t.digits)
+    if nd < min_digits:
+        return False
+    e = decimal.Decimal(exact.numerator) / decimal.Decimal(exact.denominator)
+    q = decimal.Decimal(1).scaleb(t.exponent)
+    lo = e.quantize(q, rounding=decimal.ROUND_FLOOR)
+    hi = e.quantize(q, rounding=decimal.ROUND_CEILING)
+    return d in (lo, hi)
